@@ -374,40 +374,50 @@ Section BatchR.
   Lemma list_eqb_refl : forall l, list_eqb l l = true.
   Proof. induction l; simpl; auto. rewrite Nat.eqb_refl. auto. Qed.
 
-  (* with at most two axes on both sides the code's test is exactly "same dimensionality" *)
-  Lemma cmp_dims_le2 : forall r X, a_attr P r = true -> a_attr P X = true -> ndim P r <= 2 -> ndim P X <= 2 ->
-    same_dims P r X = false -> chk_cmp_dims P (Some r) X = Raise MismatchDimensionError.
+  (* the code's test is exactly "same dimensionality", for any number of axes *)
+  Lemma cmp_dims_exact : forall r X, a_attr P r = true -> a_attr P X = true ->
+    chk_cmp_dims P (Some r) X = if same_dims P r X then Ok tt else Raise MismatchDimensionError.
   Proof.
-    intros r X Hr HX Hnr HnX Hd. unfold chk_cmp_dims, shape1, same_dims, ndim in *. rewrite Hr, HX. simpl.
-    destruct (a_shape P r) as [|r0 [|r1 [|r2 rt]]]; destruct (a_shape P X) as [|x0 [|x1 [|x2 xt]]];
-      simpl in *; try lia; try discriminate; try reflexivity.
-    destruct (r1 =? x1); simpl in *; [discriminate|reflexivity].
+    intros r X Hr HX. unfold chk_cmp_dims, same_dims. rewrite Hr, HX. simpl.
+    destruct (ndim P r =? ndim P X); simpl; destruct (list_eqb _ _); reflexivity.
   Qed.
 
-  Lemma dim_mismatch_state : forall c s r X, checks_cmp_dims (c_cls Prm c) = true ->
-    eff_ref P Prm c s = Some r -> a_attr P r = true -> a_attr P X = true ->
-    ndim P r <= 2 -> ndim P X <= 2 -> same_dims P r X = false ->
+  Lemma dim_mismatch_state : forall c s r X, has_compare (c_cls Prm c) = true ->
+    eff_ref P Prm c s = Some r -> a_attr P r = true -> a_attr P X = true -> same_dims P r X = false ->
     step c s (Cmp X) = (s, Raise MismatchDimensionError).
   Proof.
-    intros c s r X Hc Hr Ha HX Hnr HnX Hd.
-    pose proof (cmp_dims_le2 r X Ha HX Hnr HnX Hd) as Hm.
-    unfold eff_ref, Batch.step in *.
+    intros c s r X Hc Hr Ha HX Hd.
+    pose proof (cmp_dims_exact r X Ha HX) as Hm. rewrite Hd in Hm.
+    unfold eff_ref, has_compare, Batch.step in *.
     destruct (c_cls Prm c) eqn:Ecl; simpl in *; try discriminate; unfold Batch.batch_cmp; simpl;
       rewrite Hr; simpl; rewrite Hm; reflexivity.
   Qed.
 
-  Lemma dim_mismatch : forall c ops r X, checks_cmp_dims (c_cls Prm c) = true ->
+  Lemma dim_mismatch : forall c ops r X, has_compare (c_cls Prm c) = true ->
     let s := exec c init ops in
-    eff_ref P Prm c s = Some r -> a_attr P X = true ->
-    ndim P r <= 2 -> ndim P X <= 2 -> same_dims P r X = false ->
+    eff_ref P Prm c s = Some r -> a_attr P X = true -> same_dims P r X = false ->
     step c s (Cmp X) = (s, Raise MismatchDimensionError).
   Proof.
-    intros c ops r X Hc s Hr HX Hnr HnX Hd. apply dim_mismatch_state with (r := r); auto.
+    intros c ops r X Hc s Hr HX Hd. apply dim_mismatch_state with (r := r); auto.
     assert (Hn : c_cls Prm c <> IncrementalKSTest) by (intro E; rewrite E in Hc; discriminate).
     apply (ref_attr_exec c ops init Hn); [intros r0 H0; unfold eff_ref in H0; destruct (d_family _); discriminate|auto].
   Qed.
 
-  (* ------------------------------------------------------------------ univariate detectors and multi-column input *)
+  (* ------------------------------------------------------------------ fit: number of axes, multi-column input *)
+
+  Lemma fit_check_first : forall c s X e, (forall u, chk_fit_dims P u X = Raise e) ->
+    step c s (Fit X) = (s, Raise e).
+  Proof.
+    intros c s X e Hd. unfold Batch.step. destruct (c_cls Prm c) eqn:Ecl; simpl in *;
+      unfold Batch.batch_fit; simpl; rewrite Hd; simpl; try rewrite st_eta; reflexivity.
+  Qed.
+
+  Lemma more_than_two_axes_rejected : forall c s X, a_attr P X = true -> 2 < ndim P X ->
+    step c s (Fit X) = (s, Raise DimensionError).
+  Proof.
+    intros c s X HX Hn. apply fit_check_first. intros u. unfold chk_fit_dims. rewrite HX. simpl.
+    destruct (2 <? ndim P X) eqn:E; [reflexivity|apply Nat.ltb_ge in E; lia].
+  Qed.
 
   Lemma univariate_rejects_axis1 : forall c s X k, univariate (c_cls Prm c) = true ->
     a_attr P X = true -> shape1 P X = Some k -> k <> 1 ->
@@ -415,16 +425,19 @@ Section BatchR.
   Proof.
     intros c s X k Hu HX Hk Hne.
     assert (Hd : chk_fit_dims P true X = Raise DimensionError).
-    { unfold chk_fit_dims. rewrite HX, Hk. simpl. destruct (k =? 1) eqn:E; [apply Nat.eqb_eq in E; lia|reflexivity]. }
+    { unfold chk_fit_dims. rewrite HX, Hk. simpl. destruct (2 <? ndim P X); [reflexivity|].
+      destruct (k =? 1) eqn:E; [apply Nat.eqb_eq in E; lia|reflexivity]. }
     unfold Batch.step. destruct (c_cls Prm c) eqn:Ecl; simpl in *; try discriminate;
       unfold Batch.batch_fit; simpl; rewrite Hd; simpl; try rewrite st_eta; reflexivity.
   Qed.
 
-  Lemma univariate_rejects_multicolumn_2d : forall c s X, univariate (c_cls Prm c) = true ->
-    a_attr P X = true -> ndim P X <= 2 -> multi_column P X = true ->
+  Lemma univariate_rejects_multicolumn : forall c s X, univariate (c_cls Prm c) = true ->
+    a_attr P X = true -> multi_column P X = true ->
     step c s (Fit X) = (s, Raise DimensionError).
   Proof.
-    intros c s X Hu HX Hn Hm. unfold multi_column, ndim in *.
+    intros c s X Hu HX Hm.
+    destruct (le_lt_dec (ndim P X) 2) as [Hn|Hn]; [|apply more_than_two_axes_rejected; auto].
+    unfold multi_column, ndim in *.
     destruct (a_shape P X) as [|x0 [|x1 [|x2 xt]]] eqn:Es; simpl in *; try discriminate; try lia.
     apply univariate_rejects_axis1 with (k := x1); auto.
     - unfold shape1. rewrite Es. reflexivity.
@@ -435,11 +448,8 @@ Section BatchR.
   Lemma zero_dim_rejected : forall c s X, a_attr P X = true -> a_shape P X = [] ->
     step c s (Fit X) = (s, Raise DimensionError).
   Proof.
-    intros c s X HX Hs.
-    assert (Hd : forall u, chk_fit_dims P u X = Raise DimensionError).
-    { intros u. unfold chk_fit_dims, shape1, ndim. rewrite HX, Hs. destruct u; reflexivity. }
-    unfold Batch.step. destruct (c_cls Prm c) eqn:Ecl; simpl in *;
-      unfold Batch.batch_fit; simpl; rewrite Hd; simpl; try rewrite st_eta; reflexivity.
+    intros c s X HX Hs. apply fit_check_first.
+    intros u. unfold chk_fit_dims, shape1, ndim. rewrite HX, Hs. destruct u; reflexivity.
   Qed.
 
   (* ------------------------------------------------------------------ non-array input *)
@@ -447,11 +457,7 @@ Section BatchR.
   (* objects without .shape: lists, tuples, None, Python numbers *)
   Lemma plain_rejected_fit : forall c s X, a_attr P X = false -> step c s (Fit X) = (s, Raise AttributeError).
   Proof.
-    intros c s X HX.
-    assert (Hd : forall u, chk_fit_dims P u X = Raise AttributeError).
-    { intros u. unfold chk_fit_dims. rewrite HX. reflexivity. }
-    unfold Batch.step. destruct (c_cls Prm c) eqn:Ecl; simpl in *;
-      unfold Batch.batch_fit; simpl; rewrite Hd; simpl; try rewrite st_eta; reflexivity.
+    intros c s X HX. apply fit_check_first. intros u. unfold chk_fit_dims. rewrite HX. reflexivity.
   Qed.
 
   Lemma plain_rejected_cmp : forall c s X, a_attr P X = false ->
@@ -463,13 +469,12 @@ Section BatchR.
       unfold chk_fitted, chk_cmp_dims, chk_samples; rewrite ?HX; simpl; brk_all; auto.
   Qed.
 
-  (* anything that is not an ndarray, for every class whose X_ref setter is the inherited one *)
-  Lemma non_ndarray_rejected_fit : forall c s X, a_nd P X = false ->
-    c_cls Prm c <> CVMTest -> c_cls Prm c <> IncrementalKSTest ->
+  (* anything that is not an ndarray is rejected at fit by every class that stores X itself *)
+  Lemma non_ndarray_rejected_fit : forall c s X, a_nd P X = false -> c_cls Prm c <> IncrementalKSTest ->
     fst (step c s (Fit X)) = s /\
     exists e, snd (step c s (Fit X)) = Raise e /\ (e = AttributeError \/ e = DimensionError \/ e = TypeError).
   Proof.
-    intros c s X HX H1 H2. unfold Batch.step.
+    intros c s X HX H2. unfold Batch.step.
     destruct (c_cls Prm c) eqn:Ecl; simpl; try congruence; unfold Batch.batch_fit; simpl;
       unfold chk_array; rewrite ?HX; simpl;
       repeat match goal with
@@ -478,9 +483,67 @@ Section BatchR.
             [|unfold chk_fit_dims in E; brkh E; inversion E; subst]
       end; rewrite ?st_eta; split; eauto 6.
   Qed.
+
+  (* whatever is stored as a reference is an ndarray: every class, every history *)
+  Definition ref_nd (s : st) : Prop :=
+    (forall r, s_ref P s = Some r -> a_nd P r = true) /\ (forall r, s_iref P s = Some r -> a_nd P r = true).
+
+  Lemma ref_nd_step : forall c s o, ref_nd s -> ref_nd (fst (step c s o)).
+  Proof.
+    intros c s o [H1 H2]. destruct o as [X|X|v|]; [|rewrite compare_pure; split; auto| |].
+    - unfold ref_nd, Batch.step.
+      destruct (c_cls Prm c) eqn:Ecl; simpl; unfold Batch.batch_fit, chk_array; simpl;
+        split; intros r0 Hr0; brk_all; auto.
+    - unfold ref_nd, Batch.step. destruct (c_cls Prm c) eqn:Ecl; simpl; split; intros r0 Hr0; brk_all; auto.
+    - unfold ref_nd, Batch.step. destruct (c_cls Prm c) eqn:Ecl; simpl; split; intros r0 Hr0; simpl in *;
+        try discriminate; auto.
+  Qed.
+
+  Lemma stored_reference_is_ndarray : forall c ops r,
+    (s_ref P (exec c init ops) = Some r \/ s_iref P (exec c init ops) = Some r) -> a_nd P r = true.
+  Proof.
+    intros c ops.
+    assert (H : ref_nd (exec c init ops)).
+    { generalize (@init P). intros s0.
+      assert (G : forall ops s, ref_nd s -> ref_nd (exec c s ops)).
+      { induction ops0; simpl; intros; auto. apply IHops0. apply ref_nd_step; auto. }
+      revert s0. intros _. apply G. split; intros r0 Hr0; discriminate. }
+    intros r [Hr|Hr]; [apply (proj1 H)|apply (proj2 H)]; auto.
+  Qed.
+
+  (* ------------------------------------------------------------------ the chains before the repairs
+     (fix commits 606a948, a5ac796, 422d589, 7265f6c), kept to document what they let through *)
+
+  (* _check_fit_dimensions without the ndim > 2 test *)
+  Definition chk_fit_dims_axis1 (univariate : bool) (X : arr) : res unit :=
+    if negb (a_attr P X) then Raise AttributeError else
+    match shape1 P X with
+    | Some k => if dim_check univariate k then Ok tt else Raise DimensionError
+    | None => if dim_check univariate (ndim P X) then Ok tt else Raise DimensionError
+    end.
+
+  (* _check_compare_dimensions comparing shape[1] only (ndim in the IndexError handler) *)
+  Definition chk_cmp_dims_axis1 (r X : arr) : res unit :=
+    let handler :=
+      if negb (a_attr P X) then Raise AttributeError
+      else if ndim P r =? ndim P X then Ok tt else Raise MismatchDimensionError in
+    if negb (a_attr P r) then Raise AttributeError else
+    match shape1 P r with
+    | None => handler
+    | Some r1 =>
+      if negb (a_attr P X) then Raise AttributeError else
+      match shape1 P X with
+      | None => handler
+      | Some x1 => if r1 =? x1 then Ok tt else Raise MismatchDimensionError
+      end
+    end.
+
+  (* CVMTest's chains before 606a948 / a5ac796 *)
+  Definition cvm_fit_old : list check := [ChkFitDims true; ChkSamples].
+  Definition cvm_cmp_old : list check := [ChkFitted; ChkSamples].
 End BatchR.
 
-(* ---------------------------------------------------------------------- refutations (closed witnesses) *)
+(* ---------------------------------------------------------------------- closed witnesses *)
 
 Section Witness.
   Variables (P Prm V : Type) (p q : P) (prm : Prm).
@@ -496,39 +559,6 @@ Section Witness.
   Definition plain (i : P) : arr P := {| a_nd := false; a_attr := false; a_shape := []; a_id := i |}.
   Definition mk (k : cls) : cfg Prm := {| c_cls := k; c_prm := prm; c_win := 3 |}.
 
-  (* F24: CVMTest, reference (6,), test sample (6,2): no MismatchDimensionError, SciPy gets the arrays *)
-  Lemma dim_mismatch_CVM_witness :
-    let c := mk CVMTest in let r := nd [6] p in let X := nd [6; 2] q in
-    eff_ref P Prm c (exec c init [Fit r]) = Some r /\ same_dims P r X = false /\ ndim P r <= 2 /\ ndim P X <= 2 /\
-    snd (step c (exec c init [Fit r]) (Cmp X)) = Ok (OLib (lib_cmp c r None X)).
-  Proof. simpl. repeat split; auto. Qed.
-
-  (* only axis 1 is compared: reference (6,1), test sample (5,1,2) passes for every class that has the check *)
-  Lemma dim_mismatch_3d_witness : forall k, checks_cmp_dims k = true -> univariate k = true ->
-    let c := mk k in let r := nd [6; 1] p in let X := nd [5; 1; 2] q in
-    eff_ref P Prm c (exec c init [Fit r]) = Some r /\ same_dims P r X = false /\
-    snd (step c (exec c init [Fit r]) (Cmp X)) = Ok (OLib (lib_cmp c r None X)).
-  Proof. intros k H1 H2. destruct k; simpl in *; try discriminate; repeat split; auto. Qed.
-
-  (* the same for MMD: reference (6,2), test sample (5,2,2) *)
-  Lemma dim_mismatch_3d_witness_MMD : lib_fit_fails (mk MMD) (nd [6; 2] p) = false ->
-    let c := mk MMD in let r := nd [6; 2] p in let X := nd [5; 2; 2] q in
-    eff_ref P Prm c (exec c init [Fit r]) = Some r /\ same_dims P r X = false /\
-    snd (step c (exec c init [Fit r]) (Cmp X)) = Ok (OLib (lib_cmp c r (Some r) X)).
-  Proof. intros H. simpl. unfold Batch.step, Batch.batch_fit, eff_ref. simpl. rewrite H. simpl. repeat split; auto. Qed.
-
-  (* univariate classes accept (6,1,2) at fit *)
-  Lemma univariate_3d_witness : forall k, univariate k = true -> k <> IncrementalKSTest ->
-    let c := mk k in let X := nd [6; 1; 2] p in
-    multi_column P X = true /\ snd (step c init (Fit X)) = Ok ONone /\ s_ref P (fst (step c init (Fit X))) = Some X.
-  Proof. intros k H1 H2. destruct k; simpl in *; try discriminate; try congruence; repeat split; auto. Qed.
-
-  (* CVMTest.fit stores a non-ndarray that exposes .shape *)
-  Lemma non_array_fit_CVM_witness :
-    let c := mk CVMTest in let X := duck [6] p in
-    a_nd P X = false /\ snd (step c init (Fit X)) = Ok ONone /\ s_ref P (fst (step c init (Fit X))) = Some X.
-  Proof. simpl. repeat split; auto. Qed.
-
   (* compare never looks at the type of X: a non-ndarray exposing .shape reaches the library *)
   Lemma non_array_cmp_witness : forall k, has_compare k = true -> univariate k = true ->
     let c := mk k in let r := nd [6] p in let X := duck [5] q in
@@ -536,9 +566,31 @@ Section Witness.
   Proof. intros k H1 H2. destruct k; simpl in *; try discriminate; repeat split; auto. Qed.
 
   (* MMD.fit dying in the kernel computation has already replaced X_ref *)
-  Lemma mmd_failed_fit_witness : lib_fit_fails (mk MMD) (nd [6; 2; 2] p) = true ->
-    let c := mk MMD in let X := nd [6; 2; 2] p in
+  Lemma mmd_failed_fit_witness : lib_fit_fails (mk MMD) (nd [0; 2] p) = true ->
+    let c := mk MMD in let X := nd [0; 2] p in
     snd (step c init (Fit X)) = Raise OtherError /\ s_ref P (fst (step c init (Fit X))) = Some X /\
     s_aux P (fst (step c init (Fit X))) = None.
   Proof. intros H. simpl. unfold Batch.step, Batch.batch_fit. simpl. rewrite H. simpl. auto. Qed.
+
+  (* what the unrepaired checks let through, next to what the current ones do *)
+  Lemma old_cvm_cmp_witness :
+    let r := nd [6] p in let X := nd [6; 2] q in
+    run_checks P cvm_cmp_old (Some r) X = Ok tt /\
+    run_checks P (d_cmp (describe CVMTest)) (Some r) X = Raise MismatchDimensionError.
+  Proof. simpl. auto. Qed.
+
+  Lemma old_cvm_fit_witness :
+    let X := duck [6] p in
+    run_checks P cvm_fit_old None X = Ok tt /\ run_checks P (d_fit (describe CVMTest)) None X = Raise TypeError.
+  Proof. simpl. auto. Qed.
+
+  Lemma old_cmp_dims_witness :
+    let r := nd [6; 1] p in let X := nd [5; 1; 2] q in
+    chk_cmp_dims_axis1 P r X = Ok tt /\ chk_cmp_dims P (Some r) X = Raise MismatchDimensionError.
+  Proof. simpl. auto. Qed.
+
+  Lemma old_fit_dims_witness :
+    let X := nd [6; 1; 2] p in
+    chk_fit_dims_axis1 P true X = Ok tt /\ chk_fit_dims P true X = Raise DimensionError.
+  Proof. simpl. auto. Qed.
 End Witness.
